@@ -445,11 +445,13 @@ func c04ClientBookkeeping(c *core.Ctx) {
 	}
 	reqVal := facts.Resolve(doCall.Call.Args[1])
 	// the request's ContentLength: a load of the field, or the very value assigned to it
+	// the request may be built by a private helper of flush
+	builder := flushRequestBuilder(flush)
 	var lenVals []ssa.Value
-	for _, b := range flush.Blocks {
+	for _, b := range builder.Blocks {
 		for _, in := range b.Instrs {
 			if st, ok := in.(*ssa.Store); ok {
-				if b0, fld, isF := facts.FieldOf(st.Addr); isF && fld == "ContentLength" && facts.Resolve(b0) == reqVal {
+				if b0, fld, isF := facts.FieldOf(st.Addr); isF && fld == "ContentLength" && (builder != flush || facts.Resolve(b0) == reqVal) {
 					lenVals = append(lenVals, facts.Resolve(st.Val))
 				}
 			}
@@ -457,7 +459,7 @@ func c04ClientBookkeeping(c *core.Ctx) {
 	}
 	isReqLen := func(v ssa.Value) bool {
 		b, fld, ok := facts.FieldOf(facts.Resolve(v))
-		if ok && fld == "ContentLength" && facts.Resolve(b) == reqVal {
+		if ok && fld == "ContentLength" && (facts.Resolve(b) == reqVal || (builder != flush && b.Parent() == builder)) {
 			return true
 		}
 		if len(lenVals) == 1 && facts.Resolve(v) == lenVals[0] {
@@ -471,7 +473,7 @@ func c04ClientBookkeeping(c *core.Ctx) {
 	}
 	// (a) Content-Range = RangeString(flushed, flushed + req.ContentLength)
 	okRange := false
-	for _, ci := range facts.CallsIn(flush) {
+	for _, ci := range facts.CallsIn(builder) {
 		if !strings.HasSuffix(facts.CalleeName(ci.Common()), "ocirequest.RangeString") {
 			continue
 		}
